@@ -108,8 +108,6 @@ Record FsRel (f : fstore) (s : store) : Prop := mkFsRel {
   fr_rest : rest_eq (f_rest f) s
 }.
 
-Definition is_hash (v : refval) : bool := match v with RHash _ => true | RSym _ => false end.
-
 (* the calls on which the filesystem storer answers like the abstract store
    and stays in FsInv *)
 Definition fs_ok (f : fstore) (o : sop) : bool :=
@@ -123,8 +121,6 @@ Definition fs_ok (f : fstore) (o : sop) : bool :=
            | _ => false                                   (* absent: an empty file would stay behind *)
            end
     end
-  | SPackRefs =>
-    forallb (fun p => match snd p with Some v => is_hash v | None => true end) (f_loose f)
   | _ => true
   end.
 
@@ -211,6 +207,21 @@ Proof.
     apply (Hd a); [left; reflexivity|exact Hin].
   - apply IH; [exact H1'|exact H2|]. intros x Hx1 Hx2. apply (Hd x); [right; exact Hx1|exact Hx2].
 Qed.
+
+Lemma NoDup_app_inv_local {A} (l1 l2 : list A) :
+  NoDup (l1 ++ l2) -> NoDup l1 /\ NoDup l2 /\ (forall x, In x l1 -> In x l2 -> False).
+Proof.
+  induction l1 as [|a r IH]; cbn [app]; intro H.
+  - split; [constructor|]. split; [exact H|]. intros x [].
+  - inversion H as [|? ? Hn Hr]; subst. destruct (IH Hr) as (H1 & H2 & H3).
+    split; [constructor; [|exact H1]; intro Hi; apply Hn; apply in_or_app; left; exact Hi|].
+    split; [exact H2|]. intros x [Hx|Hx] Hx2.
+    + subst x. apply Hn. apply in_or_app. right; exact Hx2.
+    + exact (H3 x Hx Hx2).
+Qed.
+
+Lemma pnames_app l1 l2 : pnames (l1 ++ l2) = pnames l1 ++ pnames l2.
+Proof. induction l1 as [|[n h|] r IH]; cbn [app pnames]; rewrite ?IH; reflexivity. Qed.
 
 Lemma loose_list_some (l : fmap (option refval)) :
   (forall n, fm_get n l <> Some None) -> fm_ok l ->
@@ -446,42 +457,110 @@ Proof.
   - rewrite (IH H). split; (intros [E|E]; [left; congruence|right; exact E]).
 Qed.
 
-Lemma fs_sim_pack U f s : FsRel f s -> fs_ok f SPackRefs = true -> fs_sim U f s SPackRefs.
+Lemma In_map_pack_hashes k h (l : list (N * refval)) :
+  In (PGood k h) (map pack_line (filter (fun p => is_hash (snd p)) l)) <-> In (k, RHash h) l.
 Proof.
-  intros HR Hg. pose proof HR as [HI Hok Hr Hrest]. unfold fs_sim.
+  rewrite (In_map_pack k h).
+  - rewrite filter_In. cbn [snd is_hash]. tauto.
+  - apply forallb_forall. intros p Hp. apply filter_In in Hp. apply Hp.
+Qed.
+
+Lemma fm_get_filter_keeps (l : fmap (option refval)) k :
+  fm_ok l ->
+  fm_get k (filter keeps_loose l) =
+  match fm_get k l with Some (Some (RSym t)) => Some (Some (RSym t)) | _ => None end.
+Proof.
+  induction l as [|[n v] r IH]; intro Hok; [reflexivity|].
+  apply fm_ok_inv in Hok as [Hok HF]. cbn [filter fm_get]. unfold keeps_loose at 1. cbn [snd].
+  destruct (k =? n) eqn:E.
+  - apply N.eqb_eq in E; subst n.
+    destruct v as [[h|t]|]; cbn [fm_get]; rewrite ?N.eqb_refl; try reflexivity;
+      rewrite (IH Hok), (fm_get_lt k (k, _) r HF) by (cbn [fst]; lia); reflexivity.
+  - destruct v as [[h|t]|]; cbn [fm_get]; rewrite ?E; apply IH; exact Hok.
+Qed.
+
+Lemma fm_ok_filter {V} (g : N * V -> bool) (l : fmap V) : fm_ok l -> fm_ok (filter g l).
+Proof.
+  induction l as [|p r IH]; intro H; cbn [filter]; [constructor|].
+  apply fm_ok_inv in H as [Hok HF]. destruct (g p); [|apply IH; exact Hok].
+  constructor; [apply IH; exact Hok|].
+  apply Forall_forall. intros q Hq. apply filter_In in Hq as [Hq _].
+  rewrite Forall_forall in HF. apply HF; exact Hq.
+Qed.
+
+Lemma fs_sim_pack U f s : FsRel f s -> fs_sim U f s SPackRefs.
+Proof.
+  intros HR. pose proof HR as [HI Hok Hr Hrest]. unfold fs_sim.
   cbn [fs_step spec_sstep fst snd]. unfold fs_pack_refs.
   destruct (fs_listing f HI) as [x [Hx [Hin [Hnd Hxin]]]]. rewrite Hx.
   destruct x as [|p0 x']; [split; [exact HR|reflexivity]|].
   rewrite (fi_packed f HI). cbn [fst snd]. split; [|reflexivity].
-  set (x := p0 :: x') in *. set (L := x ++ packed_unseen (map fst x) (f_packed f)) in *.
-  (* every listed value is a hash: the files by the guard, packed lines by construction *)
-  assert (HL : forallb (fun p => is_hash (snd p)) L = true).
-  { apply forallb_forall. intros [k v] Hk. cbn [snd]. unfold L in Hk. apply in_app_or in Hk as [Hk|Hk].
-    - apply Hxin in Hk. cbn [fs_ok] in Hg. rewrite forallb_forall in Hg.
-      apply (fm_get_In k (Some v) _ (fi_ok f HI)) in Hk. apply Hg in Hk. exact Hk.
-    - apply (packed_unseen_char _ _ k v (fi_packed f HI) (fi_nodup f HI)) in Hk as [h [-> _]]. reflexivity. }
-  assert (Hpk : map pack_line x ++ map pack_line (packed_unseen (map fst x) (f_packed f)) = map pack_line L)
-    by (unfold L; rewrite map_app; reflexivity).
-  rewrite Hpk.
-  assert (HI' : FsInv (mkFs [] (map pack_line L) (f_rest f))).
+  set (x := p0 :: x') in *. set (un := packed_unseen (map fst x) (f_packed f)) in *.
+  set (P := map pack_line (filter (fun p => is_hash (snd p)) x) ++ map pack_line un).
+  assert (Hun : forallb (fun p => is_hash (snd p)) un = true).
+  { apply forallb_forall. intros [k v] Hk. cbn [snd].
+    apply (packed_unseen_char _ _ k v (fi_packed f HI) (fi_nodup f HI)) in Hk as [h [-> _]]. reflexivity. }
+  assert (Hhx : forallb (fun p => is_hash (snd p)) (filter (fun p : N * refval => is_hash (snd p)) x) = true).
+  { apply forallb_forall. intros p Hp. apply filter_In in Hp. apply Hp. }
+  rewrite map_app in Hnd. apply NoDup_app_inv_local in Hnd as (Hnd1 & Hnd2 & Hdisj).
+  assert (HI' : FsInv (mkFs (filter keeps_loose (f_loose f)) P (f_rest f))).
   { constructor; cbn [f_loose f_packed].
-    - constructor.
-    - intro k. discriminate.
-    - apply packed_ok_map_pack; exact HL.
-    - rewrite (pnames_map_pack L HL). exact Hnd. }
+    - apply fm_ok_filter. apply HI.
+    - intro k. rewrite (fm_get_filter_keeps _ k (fi_ok f HI)).
+      destruct (fm_get k (f_loose f)) as [[[h|t]|]|]; discriminate.
+    - unfold P, packed_okb. rewrite forallb_app.
+      fold (packed_okb (map pack_line (filter (fun p => is_hash (snd p)) x))).
+      fold (packed_okb (map pack_line un)).
+      rewrite (packed_ok_map_pack _ Hhx), (packed_ok_map_pack _ Hun). reflexivity.
+    - unfold P. rewrite pnames_app, (pnames_map_pack _ Hhx), (pnames_map_pack _ Hun).
+      apply NoDup_app_intro.
+      + clear - Hnd1. induction x as [|[a b] r IH]; [constructor|]. cbn [filter snd].
+        cbn [map fst] in Hnd1. inversion Hnd1 as [|? ? Hn Hr]; subst.
+        destruct (is_hash b); cbn [map fst]; [|apply IH; exact Hr].
+        constructor; [|apply IH; exact Hr]. intro Hi. apply Hn.
+        apply in_map_iff in Hi as [q [Hq Hi]]. apply filter_In in Hi as [Hi _].
+        apply in_map_iff. exists q. split; assumption.
+      + exact Hnd2.
+      + intros k H1 H2. apply (Hdisj k); [|exact H2].
+        apply in_map_iff in H1 as [q [Hq H1]]. apply filter_In in H1 as [H1 _].
+        apply in_map_iff. exists q. split; assumption. }
   constructor; [exact HI'|exact Hok| |exact Hrest].
-  intro k. rewrite (Hr k). apply opt_ext. intro v. rewrite <- (Hin k v).
-  unfold fs_lookup. cbn [f_loose f_packed fm_get].
-  split.
-  - intro Hk. destruct v as [h|t].
-    + assert (E : packed_lookup k (map pack_line L) = Some (Some h)).
-      { apply (packed_lookup_In k h _ (fi_packed _ HI') (fi_nodup _ HI')). apply (In_map_pack k h L HL). exact Hk. }
+  intro k. rewrite (Hr k). apply opt_ext. intro v. symmetry. rewrite <- (Hin k v).
+  unfold fs_lookup at 1. cbn [f_loose f_packed]. rewrite (fm_get_filter_keeps _ k (fi_ok f HI)).
+  rewrite in_app_iff, (Hxin k v).
+  destruct (fm_get k (f_loose f)) as [[[h|t]|]|] eqn:El.
+  - (* a hash reference file: now the packed line *)
+    assert (E : packed_lookup k P = Some (Some h)).
+    { apply (packed_lookup_In k h _ (fi_packed _ HI') (fi_nodup _ HI')). unfold P. apply in_or_app. left.
+      apply In_map_pack_hashes. apply Hxin. exact El. }
+    rewrite E. cbv beta iota. split.
+    + intro H; injection H as <-. left; reflexivity.
+    + intros [H|H]; [congruence|]. exfalso.
+      apply (Hdisj k).
+      * apply in_map_iff. exists (k, RHash h). split; [reflexivity|apply Hxin; exact El].
+      * apply in_map_iff. exists (k, v). split; [reflexivity|exact H].
+  - (* a symbolic reference file stays *)
+    split; [intro H; left; congruence|]. intros [H|H]; [congruence|]. exfalso.
+    apply (Hdisj k).
+    + apply in_map_iff. exists (k, RSym t). split; [reflexivity|apply Hxin; exact El].
+    + apply in_map_iff. exists (k, v). split; [reflexivity|exact H].
+  - exfalso. apply (fi_nonempty f HI k). exact El.
+  - (* no file: the packed line of the name, if any, is kept *)
+    split.
+    + destruct (packed_lookup k P) as [[h|]|] eqn:E; try discriminate.
+      intro H; injection H as <-. right.
+      apply (packed_lookup_In k h _ (fi_packed _ HI') (fi_nodup _ HI')) in E. unfold P in E.
+      apply in_app_or in E as [E|E].
+      * apply In_map_pack_hashes in E. apply Hxin in E. congruence.
+      * apply (In_map_pack k h un Hun). exact E.
+    + intros [H|H]; [discriminate|].
+      assert (Hv : exists h, v = RHash h).
+      { apply (packed_unseen_char _ _ k v (fi_packed f HI) (fi_nodup f HI)) in H as [h [-> _]]. exists h; reflexivity. }
+      destruct Hv as [h ->].
+      assert (E : packed_lookup k P = Some (Some h)).
+      { apply (packed_lookup_In k h _ (fi_packed _ HI') (fi_nodup _ HI')). unfold P. apply in_or_app. right.
+        apply (In_map_pack k h un Hun). exact H. }
       rewrite E. reflexivity.
-    + rewrite forallb_forall in HL. apply HL in Hk. discriminate.
-  - destruct (packed_lookup k (map pack_line L)) as [[h|]|] eqn:E; try discriminate.
-    intro H; injection H as <-.
-    apply (packed_lookup_In k h _ (fi_packed _ HI') (fi_nodup _ HI')) in E.
-    apply (In_map_pack k h L HL). exact E.
 Qed.
 
 Lemma fs_sim_all U f s o : FsRel f s -> fs_ok f o = true -> fs_sim U f s o.
